@@ -603,7 +603,8 @@ def gen_csv(rng, path):
             if k == "n":
                 row.append(rng.choice([0.0, 1.0, -2.5, 1e6, 13.1, float(rng.randint(-50, 50))]))
             else:
-                row.append(rng.choice(["", "Diamond_St", "a b", "x,y", 'q"uote', "é"[:0] + "z", "10"]))
+                row.append(rng.choice(["", "Diamond_St", "a b", "x,y", 'q"uote', "z", "10", '"', '""', "l1\nl2", "cr\rx",
+                                       "crlf\r\ny", ",", " ", "1e3", "\n"]))
         rows.append(row)
     with open(path, "w", newline="") as f:
         w = csv.writer(f, quoting=csv.QUOTE_NONNUMERIC)
@@ -694,6 +695,62 @@ def check_csv(ctx, rng, idx, tmp, cases):
               sample={"header": header, "rows": rows[:2]})
 
 
+
+# ------------------------------------------------------------------------------------------------
+# the reader's quoting rules on raw text: the generated files as they are + character soup after a valid header
+SOUP = [",", ",", '"', '"', "\n", "\r", "\r\n", "a", "b", " ", "1", "2", ".5", "e3", "-", "nan", "x"]
+
+
+def float_table(text):
+    out = {}
+    for tok in re.split(r"[,\r\n]", text):
+        if tok not in out:
+            try:
+                out[tok] = str(int.from_bytes(struct.pack(">d", float(tok)), "big"))
+            except ValueError:
+                out[tok] = "none"
+    return "(" + " ".join("(%s %s)" % (hs(k), v) for k, v in out.items()) + ")"
+
+
+def check_csv_text(ctx, rng, idx, tmp, cases, text=None):
+    from pydap.exceptions import OpenFileError
+    from pydap.handlers.csv import CSVHandler
+
+    if text is None:
+        kind = "soup"
+        text = '"a","b"' + rng.choice(["\n", "\r\n", "\r"]) + "".join(rng.choice(SOUP) for _ in range(rng.randint(0, 12)))
+    else:
+        kind = "file"
+    path = os.path.join(tmp, "s%d.csv" % idx)
+    with open(path, "w", newline="") as f:
+        f.write(text)
+    case = {"kind": "csvtext", "seed": ctx.seed, "label": ctx._label, "index": idx, "text": text}
+    # the oracle: the csv module itself on the file, opened as its documentation demands
+    try:
+        with open(path, newline="") as f:
+            want = list(csv.reader(f, quoting=csv.QUOTE_NONNUMERIC))
+        want_s = "ok" if want else "err"
+    except (ValueError, csv.Error):
+        want, want_s = None, "err"
+    try:
+        h = CSVHandler(path)
+        header = [c.name for c in h.dataset["sequence"].children()]
+        rows = [list(r) for r in h.dataset["sequence"].data.stream]
+        impl = "(ok (%s) (%s))" % (" ".join(cell_sexp(x) for x in header),
+                                   " ".join("(" + " ".join(cell_sexp(x) for x in r) + ")" for r in rows))
+        got = [header] + rows
+    except OpenFileError:
+        impl, got = "(err)", None
+    except Exception as e:  # noqa: BLE001
+        impl, got = "escaped:" + type(e).__name__, None
+    canon = lambda recs: [[cell_sexp(c) for c in r] for r in recs]  # noqa: E731  (floats as bit patterns: nan == nan)
+    if (got is None) != (want_s == "err") or (got is not None and canon(got) != canon(want)):
+        ctx.oracle_fail("CSV records differ from the csv module's reading of the file (QUOTE_NONNUMERIC)", case,
+                        impl[:200], repr(want)[:200])
+    cases.append(("fh-csvtext %s %s" % (hs(text), float_table(text)), impl, {k: case[k] for k in ("kind", "seed", "label", "index")}))
+    ctx.count(("csvtext", text), kind == "soup" and impl != "(err)", tag="csvtext:%s:%s" % (kind, "ok" if impl != "(err)" else "rejected"),
+              sample={"text": text[:60]})
+
 # ------------------------------------------------------------------------------------------------
 def explore(ctx, tier, search=False):
     n_nc = 40 if tier == "quick" else 400
@@ -704,11 +761,17 @@ def explore(ctx, tier, search=False):
         cases, lazy_cases, csv_cases = [], [], []
         for i in range(n_nc):
             check_netcdf(ctx, ctx.rng("%s-nc-%d" % (ctx._label, i)), i, tmp, cases, lazy_cases, search=search)
+        text_cases = []
         for i in range(n_csv):
             check_csv(ctx, ctx.rng("%s-csv-%d" % (ctx._label, i)), i, tmp, csv_cases)
+            with open(os.path.join(tmp, "c%d.csv" % i), newline="") as f:
+                check_csv_text(ctx, None, i, tmp, text_cases, text=f.read())
+        for i in range(n_csv * 10):
+            check_csv_text(ctx, ctx.rng("%s-soup-%d" % (ctx._label, i)), n_csv + i, tmp, text_cases)
         ctx.correspond("NetCDFHandler.__init__/group_fqn (dataset tree)", cases)
         ctx.correspond("LazyVariable.__getitem__", lazy_cases)
         ctx.correspond("CSVHandler.__init__ (+ side-car)", csv_cases)
+        ctx.correspond("csv.reader(QUOTE_NONNUMERIC) as used by CSVHandler/CSVData.stream (raw text)", text_cases)
     finally:
         shutil.rmtree(tmp, ignore_errors=True)
 
@@ -764,7 +827,9 @@ def replay(payload):
     ctx._label = case["label"]
     tmp = tempfile.mkdtemp(prefix="c20r-")
     try:
-        if case["kind"] == "csv":
+        if case["kind"] == "csvtext":
+            check_csv_text(ctx, None, case["index"], tmp, [], text=case["text"])
+        elif case["kind"] == "csv":
             check_csv(ctx, ctx.rng("%s-csv-%d" % (case["label"], case["index"])), case["index"], tmp, [])
         else:
             check_netcdf(ctx, ctx.rng("%s-nc-%d" % (case["label"], case["index"])), case["index"], tmp, [], [],
